@@ -35,19 +35,42 @@ theorem accept_fails_after_close (s : Sys) (t : Nat) (h : s.ths[t]? = some { rol
     (step s t).ths[t]? = some { role := .acceptor, pc := .done .err } := by
   simp [step, h, hd, hq, Sys.setPc, List.getElem?_mapIdx]
 
-/-- listener Close discards the connections nobody accepted and stops accepting, in any state -/
-theorem unaccepted_discarded (s : Sys) (t : Nat) (h : s.ths[t]? = some { role := .lcloser, pc := .atLock }) :
+/-- listener Close discards the connections nobody accepted, in any state in which it can take
+    `connLock` (no arrival in flight; otherwise the step waits, see `lock_steps_wait`) -/
+theorem unaccepted_discarded (s : Sys) (t : Nat) (h : s.ths[t]? = some { role := .lcloser, pc := .atLock })
+    (hp : s.arrPending = false) :
     (step s t).acceptQ = [] ∧ ∀ c ∈ s.acceptQ, c ∉ (step s t).table := by
-  simp only [step, h]
+  simp only [step, h, hp, Bool.false_eq_true, if_false]
   have hc : ∀ x : Sys, x.cascade.acceptQ = x.acceptQ ∧ x.cascade.table = x.table := by
     intro x; rw [Proofs.ListenerLife.cascade_eq]; exact ⟨rfl, rfl⟩
-  have hp : ∀ (x : Sys) (pc : Pc), (x.setPc t pc).acceptQ = x.acceptQ ∧ (x.setPc t pc).table = x.table :=
+  have hs : ∀ (x : Sys) (pc : Pc), (x.setPc t pc).acceptQ = x.acceptQ ∧ (x.setPc t pc).table = x.table :=
     fun _ _ => ⟨rfl, rfl⟩
-  split <;> simp only [hp, hc] <;> refine ⟨trivial, ?_⟩ <;> intro c hm <;> simp [List.mem_filter, hm]
+  split <;> simp only [hs, hc] <;> refine ⟨trivial, ?_⟩ <;> intro c hm <;> simp [List.mem_filter, hm]
 
-/-- once the listener Close has begun nothing new is accepted: arrivals create no connection -/
-theorem no_new_conn_after_close (s : Sys) (backlog : Nat) (h : s.accepting = false) : s.arrive backlog = s := by
-  simp [Sys.arrive, h]
+/-- once the listener Close has begun no new arrival is admitted: `getConn` refuses at its check … -/
+theorem no_new_conn_after_close (s : Sys) (backlog : Nat) (h : s.accepting = false) :
+    s.arriveBegin = s ∧ (s.arrPending = false → s.arrive backlog = s) := by
+  have hb : s.arriveBegin = s := by simp [Sys.arriveBegin, h]
+  refine ⟨hb, fun hp => ?_⟩
+  simp [Sys.arrive, hb, Sys.arriveEnd, hp]
+
+/-- … and an arrival that had passed the check when Close began (the read loop was inside `getConn`,
+    holding `connLock`) is resolved before Close drains the backlog: in every reachable state in
+    which the listener has dropped its reference, no arrival is in flight and nothing is queued —
+    the connection such an arrival created was discarded like every other unaccepted one. -/
+theorem inflight_arrival_discarded (s : Sys) (h : Reach s) (hl : listenerRef s = 0) :
+    s.arrPending = false ∧ s.acceptQ = [] := by
+  obtain ⟨accepted, queued, backlog, roles, ops, hw, rfl⟩ := h
+  exact Proofs.ListenerLife.drained_of_inv (Proofs.ListenerLife.inv_reach ops hw) hl
+
+/-- the lock discipline the model relies on: while an arrival is in flight, the steps that need
+    `connLock` (the drain of listener Close, the unregistration of Conn.Close) do not happen -/
+theorem lock_steps_wait (s : Sys) (t : Nat) (th : Th) (h : s.ths[t]? = some th) (hp : th.pc = .atLock)
+    (ha : s.arrPending = true) : step s t = s := by
+  cases th with | mk r p =>
+  simp only at hp
+  subst hp
+  cases r <;> simp [step, h, ha]
 
 /-- nobody stays blocked for ever in a Close: at a state where no thread can move, no thread is
     blocked waiting for the read loop (the socket has been closed by then) -/
@@ -59,5 +82,11 @@ theorem no_close_stuck (s : Sys) (h : Reach s) (hq : ∀ th ∈ s.ths, th.atYiel
 -- the pinned tree's race on the repaired model: Accept takes the queued connection, Close runs
 -- completely; the socket stays open until that connection is closed
 example : (run 1 (Sys.init 0 1 [.acceptor, .lcloser]) [.grant 0, .grant 0, .grant 1, .grant 1]).sockClosed = false := by decide
+
+-- an arrival in flight when Close begins: it is queued after `accepting` was cleared, and then discarded
+-- by the drain; the socket is closed at the end
+example : (run 4 (Sys.init 0 0 [.lcloser]) [.arriveBegin, .grant 0, .arriveEnd]).acceptQ = [0]
+    ∧ (run 4 (Sys.init 0 0 [.lcloser]) [.arriveBegin, .grant 0, .arriveEnd, .grant 0]).acceptQ = []
+    ∧ (run 4 (Sys.init 0 0 [.lcloser]) [.arriveBegin, .grant 0, .arriveEnd, .grant 0]).sockClosed = true := by decide
 
 end TV.Props.C12
